@@ -218,9 +218,10 @@ from pyvc.engine import Builtin  # noqa: E402
 for _t, _name in CLASSES.items():
     for (_m, _d) in shapes_for(_t):
         _sh = 'md=%s,data=%s' % (_m, _d)
-        both_backends('c02.encode.%s[%s]' % (_name, _sh), ['C02', 'C01'], functions=CODEC_FUNCS, replay='c02_roundtrip',
+        _credit = ['C06'] if _name in ('RequestNFrame', 'RequestStreamFrame', 'RequestChannelFrame') else []      # frames that carry credit
+        both_backends('c02.encode.%s[%s]' % (_name, _sh), ['C02', 'C01'] + _credit, functions=CODEC_FUNCS, replay='c02_roundtrip',
                       assumptions=ASSUME)(_encode(_t, _m, _d))
-        both_backends('c02.decode.%s[%s]' % (_name, _sh), ['C02', 'C01', 'C04'], functions=CODEC_FUNCS,
+        both_backends('c02.decode.%s[%s]' % (_name, _sh), ['C02', 'C01', 'C04'] + _credit, functions=CODEC_FUNCS,
                       replay='c02_roundtrip', assumptions=ASSUME)(_decode(_t, _m, _d))
         both_backends('c02.partial.%s[%s]' % (_name, _sh), ['C02'], functions=CODEC_FUNCS, replay='c02_roundtrip',
                       assumptions=ASSUME)(_partial(_t, _m, _d))
